@@ -146,25 +146,31 @@ char *getenv(const char *name)
 /* ---- rwlock monitor (sequential harnesses) ---- */
 #ifdef VCBMC
 #include <pthread.h>
+static int env_lock_writer, env_lock_readers;
 int pthread_rwlock_wrlock(pthread_rwlock_t *l)
 {
     (void)l;
-    if (env_lock_blocking) __CPROVER_assume(env_lock_depth == 0);
-    __CPROVER_assert(env_lock_depth == 0, "VP:rwlock taken while already held");
+    /* C18 scheduler: a taker that would have to wait makes the schedule infeasible; sequential harnesses: it is a bug */
+    if (env_lock_blocking) __CPROVER_assume(!env_lock_writer && env_lock_readers == 0);
+    __CPROVER_assert(!env_lock_writer && env_lock_readers == 0, "VP:rwlock taken for writing while already held");
+    env_lock_writer = 1;
     env_lock_depth++;
     return 0;
 }
 int pthread_rwlock_rdlock(pthread_rwlock_t *l)
 {
     (void)l;
-    __CPROVER_assert(env_lock_depth == 0, "VP:rwlock taken while already held");
+    if (env_lock_blocking) __CPROVER_assume(!env_lock_writer);
+    __CPROVER_assert(!env_lock_writer, "VP:rwlock taken for reading while held by a writer");
+    env_lock_readers++;        /* read locks are shared */
     env_lock_depth++;
     return 0;
 }
 int pthread_rwlock_unlock(pthread_rwlock_t *l)
 {
     (void)l;
-    __CPROVER_assert(env_lock_depth == 1, "VP:rwlock released while not held");
+    __CPROVER_assert(env_lock_depth >= 1, "VP:rwlock released while not held");
+    if (env_lock_writer) env_lock_writer = 0; else env_lock_readers--;
     env_lock_depth--;
     return 0;
 }
